@@ -37,6 +37,9 @@ class DataTensor(Tensor):
             requires_grad = data.requires_grad
         if pin_memory:
             data = data.pin_memory()
+        if requires_grad and data.grad_fn is not None:
+            # keep the autograd history of a tensor computed from other tensors
+            return data.as_subclass(cls)
         return Tensor._make_subclass(cls, data, requires_grad)
 
     def __init__(
